@@ -13,25 +13,35 @@ EXTENDS Naturals, Sequences, FiniteSets
 \* hostname parameter and a path parameter, matched directly / through an ignored trailing slash; statichost: a route
 \* below a static hostname whose handler routes another request by hand (Router.Lookup) while its own context is in use
 Shapes == {"direct", "tsr", "redirect", "noroute", "nomethod", "options", "lookup", "lookupclone", "clonewith", "clone",
-           "tsrclone", "hostdirect", "hosttsr", "statichost", "hijack", "txnlookup"}
+           "tsrclone", "hostdirect", "hosttsr", "statichost", "hijack", "txnlookup",
+           "staticdirect", "statictsr", "tsrclonewith", "tsrlookup", "wrapclone", "directcopy", "noroutecopy"}
 \* hijack: the handler takes over the connection (the next user of the context must find a working writer);
 \* txnlookup: the handler routes its request by hand through a read-only transaction (View + Txn.Lookup)
 RouteShapes == {"direct", "tsr", "lookup", "lookupclone", "clonewith", "clone", "tsrclone", "hostdirect", "hosttsr", "statichost",
-                "hijack", "txnlookup"}
-CloneShapes == {"lookupclone", "clone", "tsrclone"}
+                "hijack", "txnlookup", "staticdirect", "statictsr", "tsrclonewith", "tsrlookup", "wrapclone", "directcopy"}
+\* directcopy / noroutecopy: a middleware in front of everything hands a CloneWith copy of the context down the chain;
+\* the route handler / the no-route handler then works on the copy
+\* staticdirect / statictsr: a route without any parameter, matched directly / through an ignored trailing slash (the
+\* recycled context must not lend it parameters); tsrclonewith: CloneWith in a handler reached through an ignored
+\* trailing slash; tsrlookup: a manual Lookup that matches through a trailing slash; wrapclone: CloneWith around a
+\* writer of the caller's own type, then Clone of the copy before anything is written
+StaticShapes == {"staticdirect", "statictsr"}
+CloneShapes == {"lookupclone", "clone", "tsrclone", "wrapclone"}
 HostParamShapes == {"hostdirect", "hosttsr"}
 
 ScopeOf(shape) ==
   CASE shape \in RouteShapes -> "route"
     [] shape = "redirect" -> "redirect"
-    [] shape = "noroute" -> "noroute"
+    [] shape \in {"noroute", "noroutecopy"} -> "noroute"
     [] shape = "nomethod" -> "nomethod"
     [] shape = "options" -> "options"
 
 \* "T" = the current request's token, "-" = absent/empty
 Expect(shape) ==
   [route   |-> IF shape \in RouteShapes THEN "pattern" ELSE "-",
-   params  |-> IF shape \in HostParamShapes THEN <<"T", "T">> ELSE IF shape \in RouteShapes THEN <<"T">> ELSE <<>>,
+   params  |-> IF shape \in HostParamShapes THEN <<"T", "T">>
+               ELSE IF shape \in StaticShapes THEN <<>>
+               ELSE IF shape \in RouteShapes THEN <<"T">> ELSE <<>>,
    scope   |-> ScopeOf(shape),
    query   |-> "T", reqhdr |-> "T", path |-> "T", host |-> IF shape = "statichost" THEN "static" ELSE "T", remote |-> "T",
    status  |-> 200, size |-> 0, written |-> FALSE,
